@@ -5,7 +5,7 @@ that reaches the removal of the input has (1) produced the output, (2) flushed a
 closed it, (3) seen no exception from any output operation, (4) the delete option."""
 from ..core import AnalysisError
 from ..interp import Interpreter
-from ..terms import Const, Sym, Op, Ite, Ref, TRUE, FALSE, walk, and_, or_, not_, is_const, subst
+from ..terms import Const, Sym, Op, Ite, Ref, TRUE, FALSE, walk, and_, or_, not_, is_const, subst, compare
 from .. import pelx
 from ..pelx import implies, env_str
 from ..cli import Cli, PT, MODE_FUNCS, ARGS
@@ -103,6 +103,17 @@ def check_json(rep, prog):
         i3, env = implies(Rg, W.guard)
         rep.check(i3, rule, "removal only when a document was produced (filtered-out PELs are kept)", where, R.node,
                   "input can be removed although no output was written for it, e.g. a filtered-out PEL (%s)" % env_str(env), node=R.node)
+        # ... and that document is the decoder's non-empty text (an accepted-but-empty result is not a document)
+        decs = [e for e in ev if e.kind == "opaquecall" and e.data[0] == PT + "parsePEL" and e.seq < R.seq]
+        if decs:
+            res = Op("call:" + PT + "parsePEL", *decs[-1].data[1])
+            js = Op("getitem", res, Const(1))
+            forms = [compare("ne", Op("len", js), Const(0)), compare("gt", Op("len", js), Const(0)), I.truth(js), compare("ne", js, Const(""))]
+            i4 = any(implies(Rg, f_)[0] for f_ in forms)
+            wrote = any(any(x == js for a in w.data[2] for x in walk(a)) for w in writes)
+            rep.check(i4 and wrote, rule, "the input is removed only when the decoder returned a non-empty document, and that text is what was written",
+                      where, R.node, "the removal does not depend on a non-empty decoded document having been written (tests something else "
+                      "than the JSON text: a PEL the filter rejects, or an empty result, is deleted with nothing or an empty file written)", node=R.node)
         # no exception from any output operation
         bad = None
         for e in [W] + writes + closes_before:
@@ -200,6 +211,35 @@ def check_file(rep, prog):
                   "removed path is %r" % (norm(R.data[1][0]),), node=R.node)
 
 
+def check_decode_failure_visible(rep, prog):
+    """'decoded successfully' is what licenses the removal: a failure while decoding any section must reach the caller
+    (no document, or the exception) - a decoder that swallows it and returns a document anyway gets damaged logs deleted"""
+    rule = "C12.R3.decode-failure-visible"
+    I = Interpreter(prog, hooks={"opaque": {PT + "sectionFun", PT + "considerPEL", PT + "prettyPrint", PT + "buildOutput",
+                                            PT + "generatePH", PT + "generateUH"}})
+    st = pelx.new_stream(I)
+    cfg = I.new("pel.peltool.config.Config")
+    r = I.call(PT + "parsePEL", [st, cfg, Const(False)])
+    ev = I.events
+    decs = [e for e in ev if e.kind == "opaquecall" and e.data[0] in (PT + "sectionFun", PT + "generatePH", PT + "generateUH")]
+    n = 0
+    for D in decs:
+        for exc in tries_covering(ev, D):
+            n += 1
+            # the value parsePEL returns when this try caught something
+            doc = I.unpack_ite(r, 1, 2) if isinstance(r, (Ite, Ref)) else None
+            got = pelx.specialise(doc, exc) if doc is not None else None
+            hs = [h for h in ev if h.kind == "handler" and h.data[0] == exc]
+            reraised = any(x.kind in ("raise", "exit") and exc in (x.guard.args if isinstance(x.guard, Op) and x.guard.op == "and" else (x.guard,))
+                           for x in ev if hs and x.seq > hs[0].seq)
+            ok = reraised or got in (Const(""), Const(None))
+            rep.check(ok, rule, "parsePEL:%s a failure of %s caught inside the decoder yields no document" % (
+                getattr(D.node, "lineno", "?"), D.data[0].split(".")[-1]), PT + "parsePEL", D.node,
+                "a failure of %s is caught inside parsePEL and a document is returned all the same (%s): a log that is damaged there counts "
+                "as decoded and --clean removes it" % (D.data[0].split(".")[-1], repr(got)[:80]), node=D.node)
+    rep.count("try blocks around decode steps inside parsePEL", n)
+
+
 def run(rep, prog, thorough):
     rep.explanation = (
         "Typestate/must-pass-through over the interpreted event order of parseAndWriteOutput and of main()'s --file "
@@ -208,5 +248,6 @@ def run(rep, prog, thorough):
         "that a document was produced, and that --clean was given (implications decided by enumerating the path atoms).")
     check_json(rep, prog)
     check_file(rep, prog)
+    check_decode_failure_visible(rep, prog)
     rep.floor("input-removal sites", rep.analysed.get("input-removal sites (--json)", 0) +
               rep.analysed.get("input-removal sites (--file)", 0), 2)
